@@ -49,7 +49,7 @@ func init() {
 		Directed:    c16Directed,
 		Run:         c16Run,
 		MustHit:     []string{"builder=BuildAuthBodyPost", "builder=BuildAuthBodyPostFromDocument", "builder=BuildLogoutBodyPostFromDocument", "builder=BuildLogoutResponseBodyPostFromDocument", "relay_absent", "relay_hostile", "relay_absent_then_present", "relay_present_then_absent", "signed", "unsigned"},
-		RandomRuns:  map[string]int{"quick": 1200, "thorough": 50000},
+		RandomRuns:  map[string]int{"quick": 5000, "thorough": 50000},
 		Assumptions: []string{"NUL and invalid UTF-8 are excluded from relay states (HTML cannot carry them); CR and CRLF compare equal to LF, as the HTML input-stream preprocessing prescribes"},
 	})
 }
